@@ -11,6 +11,7 @@ import (
 	"os"
 	"os/exec"
 	"path/filepath"
+	"sort"
 	"strconv"
 	"strings"
 	"time"
@@ -234,13 +235,91 @@ func c19Child() {
 		if sc := os.Getenv("VERIF_C19_SCRIPT"); sc != "" {
 			ops = parseLine(sc)
 		}
+		if os.Getenv("VERIF_C19_MODE") == "1" {
+			// the save inside fav.Load: no .fav, TryFav4Load converts .fav4 and saves
+			if _, err := fav.Load(c19UID); err != nil {
+				code = 5
+			}
+			return
+		}
+		rel := int64(1)
+		if r := os.Getenv("VERIF_C19_REL"); r != "" {
+			rel = ai(r)
+		}
 		f, _ := c19Build(ops)
-		f.MTime = types.Time4(c19T0 + 1)
+		f.MTime = types.Time4(c19T0 + rel)
 		if _, err := f.Save(c19UID); err != nil {
 			code = 5
 		}
 	}()
 	os.Exit(code)
+}
+
+const c19Stale = fav.FAV + ".tmp.stale-left-by-a-crash"
+
+// every file of the user's home: count, then (name code, length, bytes) ordered by name code.
+// 0 .fav, 1 .fav.tmp.<anything but the planted stale one>, 2 .fav4, 3 the planted stale temp file, 4 .fav.bak, 9 other
+func c19DumpDir() []string {
+	ents, err := os.ReadDir(c19UserDir)
+	must(err)
+	type ent struct {
+		code int
+		name string
+	}
+	var es []ent
+	for _, e := range ents {
+		n := e.Name()
+		code := 9
+		switch {
+		case n == fav.FAV:
+			code = 0
+		case n == c19Stale:
+			code = 3
+		case strings.HasPrefix(n, fav.FAV+".tmp."):
+			code = 1
+		case n == fav.FAV4:
+			code = 2
+		case n == fav.FAV+".bak":
+			code = 4
+		}
+		if !e.Type().IsRegular() {
+			code = 9
+		}
+		es = append(es, ent{code, n})
+	}
+	sort.SliceStable(es, func(i, j int) bool { return es[i].code < es[j].code })
+	out := []string{strconv.Itoa(len(es))}
+	for _, e := range es {
+		b, _ := os.ReadFile(filepath.Join(c19UserDir, e.name))
+		out = append(out, strconv.Itoa(e.code), strconv.Itoa(len(b)))
+		out = append(out, ob(b)...)
+	}
+	return out
+}
+
+// fav.Load in this process on the directory as the dead child left it
+func c19LoadAfter() (out []string) {
+	defer func() {
+		if r := recover(); r != nil {
+			out = []string{"1"}
+		}
+	}()
+	_, statErr := os.Stat(c19FavPath())
+	f, err := fav.Load(c19UID)
+	if err != nil {
+		return errs(c19ErrCode(err))
+	}
+	if statErr != nil { // there was no .fav: nil, or the tree converted from .fav4 (not dumped)
+		if f == nil {
+			return []string{"0", "-1"}
+		}
+		return []string{"0", "-2"}
+	}
+	if f == nil {
+		return []string{"3", "10"}
+	}
+	d := c19Dump(f, nil)
+	return append([]string{"0", strconv.Itoa(len(d))}, d...)
 }
 
 func c19Run(args [][]string) []string {
@@ -330,6 +409,76 @@ func c19Run(args [][]string) []string {
 		}
 		out = append(out, strconv.Itoa(len(states[last])))
 		return append(out, ob(states[last])...)
+	case 7: // [hasfav mode rel] | 77 present fav4... | 78 present stale... | old script | 99 | new script
+		// crash sweep over any initial home directory; the whole directory and Load afterwards are observed
+		if len(args) < 4 || len(args[1]) != 3 || len(args[2]) < 2 || args[2][0] != "77" || len(args[3]) < 2 || args[3][0] != "78" {
+			return []string{"9"}
+		}
+		hasfav, mode, rel := ai(args[1][0]), ai(args[1][1]), ai(args[1][2])
+		var fav4b, staleb []byte
+		if ai(args[2][1]) != 0 {
+			fav4b = ab(args[2][2:])
+		}
+		if ai(args[3][1]) != 0 {
+			staleb = ab(args[3][2:])
+		}
+		c19Clean(false)
+		o, n := c19SplitSep(args[4:])
+		var old []byte
+		fo, _ := c19Build(o)
+		do := c19Dump(fo, nil) // before Save: cleanup changes the tree in place
+		if hasfav != 0 {
+			if _, err := fo.Save(c19UID); err != nil {
+				return []string{"9"}
+			}
+			var err error
+			old, err = os.ReadFile(c19FavPath())
+			must(err)
+		}
+		fn, _ := c19Build(n) // a malformed script is a bad case here, not in the child
+		dn := c19Dump(fn, nil)
+		script := make([]string, len(n))
+		for i, g := range n {
+			script[i] = strings.Join(g, " ")
+		}
+		var body []string
+		last := 0
+		for k := 1; ; k++ {
+			if k > 200000 {
+				return []string{"2"}
+			}
+			c19Clean(false)
+			if hasfav != 0 {
+				c19PlantOld(old)
+			}
+			if fav4b != nil {
+				must(os.WriteFile(filepath.Join(c19UserDir, fav.FAV4), fav4b, 0o644))
+			}
+			if staleb != nil {
+				must(os.WriteFile(filepath.Join(c19UserDir, c19Stale), staleb, 0o644))
+			}
+			cmd := exec.Command(os.Args[0], "C19")
+			cmd.Env = append(os.Environ(), "VERIF_C19_CHILD=1", "VERIF_C19_DIR="+c19Root,
+				"VERIF_CRASH_AT="+strconv.Itoa(k), "VERIF_C19_SCRIPT="+strings.Join(script, "|"),
+				"VERIF_C19_MODE="+strconv.FormatInt(mode, 10), "VERIF_C19_REL="+strconv.FormatInt(rel, 10))
+			err := cmd.Run()
+			body = append(body, c19DumpDir()...)
+			body = append(body, c19LoadAfter()...)
+			if err == nil {
+				last = k - 1
+				break // the save completed: no k-th crash point
+			}
+			var ee *exec.ExitError
+			if !errors.As(err, &ee) || ee.ExitCode() != types.VERIF_CRASH_EXIT_CODE {
+				return []string{"1"} // the child panicked or failed
+			}
+		}
+		out := []string{"0", strconv.Itoa(len(do))}
+		out = append(out, do...)
+		out = append(out, strconv.Itoa(len(dn)))
+		out = append(out, dn...)
+		out = append(out, strconv.Itoa(last))
+		return append(out, body...)
 	case 6: // arbitrary bytes as .fav4 (no .fav) -> Load converts; only crash/no crash is observed
 		c19Clean(false)
 		must(os.WriteFile(filepath.Join(c19UserDir, fav.FAV4), ab(args[1]), 0o644))
